@@ -342,6 +342,36 @@ func build(s *core.Shard, i int) *Case {
 		addLabel(dist.Sub["services"].Sub[name], "probe.leak", "${"+probe+":-main-default}")
 	}
 
+	// ---- secrets / configs sourced from an environment variable: some of the variables are set ------
+	for _, k := range []string{"secrets", "configs"} {
+		mv := root.Sub[k]
+		if mv == nil {
+			continue
+		}
+		for _, name := range mv.Keys {
+			ev := mv.Sub[name].Sub["environment"]
+			if ev == nil {
+				continue
+			}
+			vn, _ := ev.Spells[0].(string)
+			n := owner[resRef{k, name}]
+			included := n != nil && n.id != 0
+			if k == "configs" && included && i%5 != 3 {
+				// recorded finding (FINDINGS.md #3): only one case in five sets the variable of an included config
+				continue
+			}
+			if vn != "" && r.Intn(5) < 3 {
+				topEnv[vn] = "value-of-" + vn
+				if included {
+					c.Uses++
+					if k == "configs" && c.Input == "plain" {
+						c.Input = "included-config-from-set-variable"
+					}
+				}
+			}
+		}
+	}
+
 	// ---- relative paths: anchored at the included project directory ------------
 	tokenDir := map[string]string{}
 	for rr, n := range owner {
